@@ -29,9 +29,9 @@ Theorem C01_memo_invariant : forall (A : Type) prim act cond dirflag (inp : list
   memo_inv A inp (snd (run A prim act cond dirflag inp grammar fuel e p rf st)).
 Proof. intros. eapply run_good; eauto using C01_grammar_wf. Qed.
 
-(* strict source_text / library_text end with eof: the tiling reaches the end of the text *)
+(* the five start symbols are productions of the regenerated grammar *)
 Theorem C01_start_symbols :
-  start_source_text < length grammar /\ start_source_text_incomplete < length grammar /\
-  start_library_text < length grammar /\ start_library_text_incomplete < length grammar /\
-  start_preprocessor_text < length grammar.
-Proof. vm_compute. repeat split; repeat constructor. Qed.
+  Nat.ltb start_source_text (length grammar) && Nat.ltb start_source_text_incomplete (length grammar) &&
+  Nat.ltb start_library_text (length grammar) && Nat.ltb start_library_text_incomplete (length grammar) &&
+  Nat.ltb start_preprocessor_text (length grammar) = true.
+Proof. vm_compute. reflexivity. Qed.
